@@ -3,6 +3,7 @@ package sim
 import (
 	"bytes"
 	"sort"
+	"strconv"
 
 	"verif/refcbor"
 	"verif/tape"
@@ -128,7 +129,7 @@ func (m *MTree) replace(s Site, n *refcbor.Item) {
 	}
 }
 
-var structFaultKinds = []string{"rewidth", "typeswap", "elemswap", "bucketmove", "dupkey", "nilswap", "tagwrap", "untag", "indef",
+var structFaultKinds = []string{"digitstr", "rewidth", "typeswap", "elemswap", "bucketmove", "dupkey", "nilswap", "tagwrap", "untag", "indef",
 	"keyreorder", "unprot-edit", "arity", "emptybstr", "intedit", "strgrow", "param-inject"}
 
 func pickSite(t *tape.Tape, sites []Site, ok func(Site) bool) (Site, bool) {
@@ -490,6 +491,31 @@ func StructFault(t *tape.Tape, in []byte, kind string) (out []byte, applied stri
 			n = refcbor.Int(int64(s.It.Arg%1000) + 1)
 		}
 		m.replace(s, n)
+	case "digitstr":
+		// an integer respelt as the text string of its digits (or back):
+		// label 4 and label "4" are different labels, and a crit entry names
+		// one of them, not both
+		s, found := pickSite(t, sites, func(s Site) bool {
+			if s.It.IsInt() {
+				v, ok := s.It.Int64()
+				return ok && v > -100000 && v < 100000
+			}
+			if s.It.Major == refcbor.MTstr && len(s.It.Data) > 0 && len(s.It.Data) < 7 {
+				_, err := strconv.ParseInt(string(s.It.Data), 10, 64)
+				return err == nil
+			}
+			return false
+		})
+		if !found {
+			return nil, "", false
+		}
+		if s.It.IsInt() {
+			v, _ := s.It.Int64()
+			m.replace(s, refcbor.Tstr(strconv.FormatInt(v, 10)))
+		} else {
+			v, _ := strconv.ParseInt(string(s.It.Data), 10, 64)
+			m.replace(s, refcbor.Int(v))
+		}
 	case "strgrow":
 		s, found := pickSite(t, sites, func(s Site) bool {
 			return (s.It.Major == refcbor.MBstr || s.It.Major == refcbor.MTstr) && !s.It.Indef
